@@ -666,3 +666,23 @@ Lemma C16_update_clearing_delete_refuted :
 Proof.
   exists ex_g1, ex_addr. vm_compute. eexists. repeat split; discriminate.
 Qed.
+
+(* (25) UpdatePeer gives the neighbour the local AS a neighbour configured that
+   way gets from add_peer, confederation identifier included (finding C16-8
+   repaired) *)
+Lemma C16_update_local_asn_as_configured :
+  forall (g : global) (a : ipaddr) (u : upd) (p p' : peer) (pa : params),
+    keys_ok g ->
+    lookup a (gl_peers g) = Some p -> lookup a (gl_peers (update_peer g a u)) = Some p' ->
+    u_rs_client u = pe_rs_client p -> u_rr_client u = rr_client (pe_rr p) ->
+    pa_expected_asn pa = u_asn u -> pa_local_asn pa = u_local_asn u ->
+    pe_local_asn p' = pe_local_asn (build_peer g a pa) /\ pe_expected_asn p' = u_asn u.
+Proof.
+  intros g a u p p' pa Hk Hl Hl' Hrs Hrr He Hla. unfold update_peer in Hl'. rewrite Hl in Hl'.
+  rewrite Hrs, Hrr, !eqb_reflx in Hl'. cbn [negb orb] in Hl'.
+  match type of Hl' with context [if ?b then set_peers g (remove _ _) else _] => destruct b end;
+    cbn [set_peers gl_peers] in Hl'.
+  - rewrite lookup_remove_same in Hl' by exact Hk. discriminate Hl'.
+  - rewrite lookup_update_same in Hl'. injection Hl' as <-. cbn [pe_local_asn pe_expected_asn build_peer].
+    rewrite He, Hla. split; reflexivity.
+Qed.
